@@ -717,6 +717,10 @@ func child(mode string, in json.RawMessage) any {
 		var j cdJob
 		json.Unmarshal(in, &j)
 		return doConcDiff(j)
+	case "fault":
+		var j faultJob
+		json.Unmarshal(in, &j)
+		return doFault(j)
 	case "concsp":
 		var j spJob
 		json.Unmarshal(in, &j)
